@@ -203,6 +203,15 @@ func indirectUseSpecs() []specCase {
 			out = append(out, specCase{fmt.Sprintf("C08/indirect/fieldsof-two-names-long-chain/n=%d/ptr=%d", n, ptr), g})
 		}
 	}
+	// the injector with the superfluous item sits in the first of two injector files (or the last; or none: control)
+	for _, bad := range []int{3, 4} {
+		for swap := 0; swap < 2; swap++ {
+			bad, swap := bad, swap
+			g := &GraphSpec{}
+			g.custom = func(b *ir.Builder) *ir.Program { return twoFilesProgram(bad, swap == 1) }
+			out = append(out, specCase{fmt.Sprintf("C08/indirect/two-injector-files/bad=%d/last=%d", bad, swap), g})
+		}
+	}
 	// two separate wire.FieldsOf items over one struct, one of them (or one of three) entirely unused: the unused call
 	// is reported whatever its neighbours contribute; the same two fields in ONE call are accepted (one item)
 	for variant := 0; variant < 4; variant++ {
